@@ -163,7 +163,7 @@ Proof.
     destruct IH as (H1 & H2 & H3 & H4 & H5). rewrite H1, H2, H3, H4, H5.
     rewrite step_total by exact Hs.
     cbn [summ_update summ_add_bytes u_sys u_fixed u_evtx u_journal u_lines].
-    unfold count_kind. cbn [filter text_lines fold_right]. unfold is_kind at 1 3 5 7.
+    unfold count_kind. cbn [filter text_lines fold_right]. unfold is_kind, text_lines.
     destruct (m_kind (e_msg e)); cbn [length]; repeat split; lia.
 Qed.
 
@@ -378,7 +378,8 @@ Proof.
   induction evs as [|e evs IH]; [reflexivity|].
   simpl flat_map. simpl shape_of. unfold shape_of_msg, dec_bytes at 1.
   rewrite <- !app_assoc.
-  rewrite (strip_msgs_cons _ _ _ _ _ _ _ IH). unfold plain, m_data. rewrite <- app_assoc. reflexivity.
+  rewrite (strip_msgs_cons _ _ _ _ _ _ _ IH). unfold plain_run at 2. simpl flat_map.
+  unfold plain, m_data. rewrite <- app_assoc. reflexivity.
 Qed.
 
 (* deleting file field, date field (in that order, at every line start) and the separator after each
@@ -435,6 +436,6 @@ Proof. vm_compute. auto. Qed.
 Lemma unescape_plain l : ~ In 92%N l -> unescape l = Some l.
 Proof.
   induction l as [|b l IH]; intro H; [reflexivity|]. simpl.
-  destruct (N.eqb_spec b 92) as [E|E]; [exfalso; apply H; left; symmetry; exact E|].
+  destruct (N.eqb_spec b 92) as [E|E]; [exfalso; apply H; left; exact E|].
   rewrite IH; [reflexivity|]. intro Hin. apply H. right. exact Hin.
 Qed.
